@@ -125,8 +125,10 @@ pub fn run(case: &Value, ctx: &Ctx) -> Outcome {
             let n = case["n"].as_u64().unwrap() as usize;
             let cells: Vec<f64> = case["cells"].as_array().unwrap().iter().map(qnum).collect();
             out.nontrivial = Some(format!("{n}/{}", case["pattern"].as_str().unwrap()));
-            let text = cli::write_text(&[n + 1], &cells, 0);
-            let scs = Scs::new(cells, vec![n + 1]).unwrap();
+            let shape = case.get("shape").map(usizes).unwrap_or_else(|| vec![n + 1]);
+            out.nontrivial = Some(format!("{shape:?}/{}/{}", case["pattern"].as_str().unwrap(), case["cells"][1]));
+            let text = cli::write_text(&shape, &cells, 0);
+            let scs = Scs::new(cells, shape).unwrap();
             check_all(&mut out, ctx, &text, &scs, stats, "estimator");
         }
         "layout" => {
